@@ -9,6 +9,8 @@ use acb::util::rw::{DescribedReader, WriteHandle};
 use rust_decimal::Decimal;
 
 use crate::app;
+use crate::ledger;
+use acb::portfolio::Affiliate;
 use crate::common::*;
 use crate::rng::Rng;
 
@@ -43,7 +45,52 @@ pub fn replay(lines: &[String], out: &mut String) -> bool {
     true
 }
 
+/// One position sold off in several steps, some at a loss, some at a gain, 5-40 days apart, hardly
+/// any purchase in between; the summary date falls on or next to one of the sales.  (Loss sales
+/// on both sides of the summary date whose windows chain backwards.)
+fn run_loss_chain_case(id: &str, r: &mut Rng, out: &mut String) {
+    let names = vec!["Default".to_string(), "Spouse".to_string()];
+    let affs: Vec<Affiliate> = names.iter().map(|n| Affiliate::from_strep(n)).collect();
+    let mut day = ledger::BASE_JD + 300;
+    let mut rows: Vec<Tx> = Vec::new();
+    rows.push(ledger::mk_tx(day, &affs[0], ledger::buy(Decimal::new(100, 0), Decimal::new(50, 0))));
+    if r.chance(30) {
+        rows.push(ledger::mk_tx(day + 1, &affs[1], ledger::buy(Decimal::new(40, 0), Decimal::new(48, 0))));
+    }
+    day += 60 + r.range(0, 100) as i32;
+    let n = 3 + r.below(4);
+    let mut left = 100i64;
+    let mut sale_days = Vec::new();
+    for _ in 0..n {
+        if left <= 1 {
+            break;
+        }
+        day += *r.pick(&[5, 10, 19, 21, 29, 30, 31, 40]);
+        if r.chance(10) {
+            rows.push(ledger::mk_tx(day, &affs[0], ledger::buy(Decimal::new(r.range(1, 10), 0), Decimal::new(r.range(3000, 6000), 2))));
+            continue;
+        }
+        let q = 1 + r.below((left as u64 / 2).max(1)) as i64;
+        left -= q;
+        let px = if r.chance(65) { Decimal::new(r.range(2000, 4900), 2) } else { Decimal::new(r.range(5100, 8000), 2) };
+        rows.push(ledger::mk_tx(day, &affs[0], ledger::sell(Decimal::new(q, 0), px, None)));
+        sale_days.push(day);
+    }
+    for (i, t) in rows.iter_mut().enumerate() {
+        t.read_index = i as u32;
+        t.security = "S0".to_string();
+    }
+    if sale_days.is_empty() {
+        return;
+    }
+    let cut = *r.pick(&sale_days) + *r.pick(&[0i32, 0, 1, -1, 3]);
+    run_rows(id, names, rows, cut, false, out);
+}
+
 pub fn run_case(id: &str, r: &mut Rng, out: &mut String) {
+    if r.chance(15) {
+        return run_loss_chain_case(id, r, out);
+    }
     let mut names = vec!["Default".to_string()];
     // histories without manual SFL entries and without errors are the domain of C10
     let (mut rows, _init) = app::gen_security(r, "S0", &mut names);
